@@ -78,6 +78,9 @@ def run(tier, seed):
         ck.violation("oracle (extracted model) does not build", {"kind": "build"}, no_input=True)
         return ck.finish("n/a", TRUSTED, [])
     cases = []
+    for f in N.read_corpus("C16", "for.txt"):
+        cases.append((f[0], f[1], f[2] if f[2] != "-" else None, f[3] if len(f) > 3 else "plain"))
+    ck.cov["corpus_for"] = len(cases)
     for a in LAT:
         for b in LAT:
             for c in LAT:
